@@ -19,6 +19,11 @@ func genStructs(o *hx.Out, rng *hx.Rng, n, nmut int) {
 			if rec, ok := cxs.RunNilElems(e, d, rng.U64()); ok {
 				o.Put(rec)
 			}
+			if i == 0 || e.Name == "pkg/blockchain.Transaction" { // field keys widened beyond 32 bits
+				for _, m := range cxs.KeyAttacks(d) {
+					o.Put(cxs.RunStruct(e, m, "widekey"))
+				}
+			}
 			if i == 0 { // hostile length prefixes / varints at every top-level position (nested readers with wrapped ends)
 				for k, m := range cxs.VarintAttacks(d) {
 					if k%3 == 0 {
